@@ -103,12 +103,13 @@ func (t *Directive) Validate(root *Root) (errs []error) {
 		errs = append(errs, validateName(a.core, "argument", a.N, a.line, a.col)...)
 		if co, _ := a.Type.(InCoercer); co != nil && IsInputType(a.Type) {
 			if a.Default != nil {
-				if v, err := co.CoerceIn(a.Default); err != nil {
+				// Every load validates all directives again, also a load that
+				// fails. The default is only checked, on a copy, so that it
+				// stays what the document said: coercing fills in the fields
+				// an input object leaves to its defaults and those can change
+				// with a later, or a failed, extend of the input type.
+				if _, err := co.CoerceIn(copyValue(a.Default)); err != nil {
 					errs = append(errs, fmt.Errorf("%w at %d:%d", err, a.line, a.col))
-				} else {
-					// Might as well replace the coerced value since it is really
-					// what is needed.
-					a.Default = v
 				}
 			}
 		} else {
